@@ -115,7 +115,11 @@ Proof.
   exists [Write "g" (fun _ => 1)], [Write "g" (fun _ => 2)]. vm_compute. intros [H _]. discriminate.
 Qed.
 
-(* [F over the GENERATED table; the translator is trusted] "a pure function of the circuit and the parameters":
+(* [translator-derived table + rule; NO proof content of its own: nondet_okb is a forallb over kind labels that
+   tools/nondet.py itself assigns (Determinism.v), and c08_nondet_rule_correct is the forallb <-> forall
+   reading; all the analysis (taint tracking, token scan) is trusted Python; nondet_ok [] holds, and nothing
+   checks that the three known clock uses are found.  Read the statement as "the translator reports ..."]
+   "a pure function of the circuit and the parameters":
    tools/nondet.py regenerates from clang's AST and a token scan of the tree under check every use of a value derived
    from a clock (std::chrono::*::now(), time(), clock(): taint followed through variables, duration arithmetic and
    .count()) and every other external source (std::random_device, rand/srand, getenv, getpid, thread ids, %p, unordered
